@@ -231,6 +231,8 @@ def random_dyadic(n, rng):
 LADDER = (-997, -100, -54, -40, -34, -33, -27, -24, -20, -17, -10, 0, 10, 17, 27, 40, 100)
 MIX_LADDER = tuple(e for e in LADDER if e != -997)     # rungs that may be mixed freely in one matrix
 MANT = (1, -1, 3, -3, 5, 1, 1)
+# now and then a mantissa that needs 31 / 53 bits (anything computed or stored in lower precision shows)
+LONG_MANT = (Fraction(2 ** 30 + 1, 2 ** 30), Fraction(-(2 ** 52 + 1), 2 ** 52), Fraction(2 ** 53 - 1, 2 ** 52))
 U53 = Fraction(1, 2 ** 53)
 INV_K = 32                       # = Flt.invK
 TIE = 1 - Fraction(1, 2 ** 30)   # = Flt.tie
@@ -361,7 +363,8 @@ def ladder_shapes(n, s):
 def ladder_offsets(n, s, rng):
     """offsets: none; a few pixels' worth; 2**20 and 2**36 pixels' worth (Julian dates, wavelengths
     far from zero: the world values are huge compared with the step); plus one unrelated rung"""
-    base = [[Fraction(0)] * n, [3 * s] * n, [s * 2 ** 20] + [Fraction(0)] * (n - 1), [-5 * s * 2 ** 36] * n]
+    base = [[Fraction(0)] * n, [3 * s] * n, [s * 2 ** 20] + [Fraction(0)] * (n - 1), [-5 * s * 2 ** 36] * n,
+            [s * (2 ** 31 + 1)] * n]
     if s != p2(-997):
         base.append([p2(rng.choice(MIX_LADDER)) * rng.choice(MANT) for _ in range(n)])
     return base
@@ -392,7 +395,8 @@ def ladder_random(rng):
     n = rng.choice([1, 2, 2, 3, 3, 3])
     kind = rng.choice(["diagonal", "permuted", "triangular", "coupled", "block"])
     exps = rng.sample(MIX_LADDER, rng.choice([1, 2, 2, 3]))
-    ent = lambda: Fraction(rng.choice(MANT)) * p2(rng.choice(exps))  # noqa: E731
+    long_m = rng.random() < 0.25
+    ent = lambda: (rng.choice(LONG_MANT) if long_m and rng.random() < 0.5 else Fraction(rng.choice(MANT))) * p2(rng.choice(exps))  # noqa: E731
     A = [[Fraction(0)] * n for _ in range(n)]
     if kind == "diagonal":
         for i in range(n):
@@ -731,11 +735,12 @@ class Link(_DataFamily):
 PROP = Property(
     id="C15",
     title="World coordinates, their links and inverses agree with the coordinate object",
-    theorems=["C15.w2p_p2w", "C15.w2p_p2w_coord", "C15.inverse_le3", "C15.det_ne_zero_iff", "C15.mkAffine_wf", "C15.coupledAxes_closed", "C15.need_subset_dep", "C15.need_subset_dep_of_diag", "C15.world_eq_direct", "C15.world_eq_direct_partial", "C15.world_eq_direct_pinned_of_diag", "C15.w2p_shortcut", "C15.w2p_shortcut_partial", "C15.inverse_pattern_covered", "C15.links_eq_direct", "C15.link_p2w_eq_direct_partial", "C15.identity_coords", "C15.permuted_axes_wrong", "C15.triangular_inverse_wrong", "C15.chain_from_needed_wrong"],
+    theorems=["C15.w2p_p2w", "C15.w2p_p2w_coord", "C15.inverse_le3", "C15.det_ne_zero_iff", "C15.mkAffine_wf", "C15.coupledAxes_closed", "C15.need_subset_dep", "C15.need_subset_dep_of_diag", "C15.world_eq_direct", "C15.world_eq_direct_partial", "C15.world_eq_direct_pinned_of_diag", "C15.w2p_shortcut", "C15.w2p_shortcut_partial", "C15.inverse_pattern_covered", "C15.corr_matrix_exact", "C15.dep_scale_invariant", "C15.links_eq_direct", "C15.link_p2w_eq_direct_partial", "C15.identity_coords", "C15.permuted_axes_wrong", "C15.triangular_inverse_wrong", "C15.chain_from_needed_wrong"],
     families=[Xform(), World(), Link()],
-    trusted_base=["numpy matmul / linalg.inv on doubles (exact on the dyadic inputs generated; inverse within 1e-9, snapped to the nearest rational with denominator <= 20000 in Python before sending)",
+    trusted_base=["IEEE binary64 arithmetic of numpy matmul (any summation order, with or without FMA) and of LAPACK gesv behind np.linalg.inv: doubles are sent to Lean as exact rationals and accepted by rules computed by the Lean driver from the exact case (lean/GlueVerif/Model/C15Float.lean): forward values exact whenever all partial sums are representable, else within (n+2) 2^-53 sum|terms|; inverse values within 32 * 2^-53 * |N| W |N| |y| (first-order Higham bound for Gaussian elimination with partial pivoting, W = P^T|L||U| computed exactly over Q on every near-tied pivot path; constant calibrated: worst observed 2.4 of 32). No absolute tolerance.",
                   "numpy meshgrid / unbroadcast / broadcast_arrays / broadcast_to / basic and advanced indexing are modelled by their value semantics (Model/Coords.lean: viewPoints, subst)"],
     assumptions=["astropy WCS objects are not modelled: only AffineCoordinates and IdentityCoordinates (the property's quantifier)",
+                 "matrices are generated only if float64 can invert them meaningfully: the driver's own round-trip tolerance at pixel (4,..,4) is <= 2^-8 pixel and all magnitudes (matrix, inverse, |N|W|N|) lie in [2^-1000, 2^1000]; the rung 2^-997 is only used in fixed structural roles (no random mixing: products of two such entries underflow)",
                  "views: None, Ellipsis, scalars, slices (any non-zero step), tuples of these not longer than ndim, tuples of ndim in-range non-negative integer index arrays, full-shape Boolean masks"],
-    rule="coordinates: identity 1-3 d, all 0/±1/2 matrices with non-zero determinant for n = 1, 2 (all of them) and n = 3 (hand-picked patterns + seeded sample), translations from a fixed set, seeded random dyadic matrices; shapes <= 3-d with sides <= 4 (5 thorough); views from the stated domain; non-trivial = affine coordinates (xform) / affine and >= 2-d (world, link)",
+    rule="coordinates: identity 1-3 d, all 0/±1/2 matrices with non-zero determinant for n = 1, 2 (all of them) and n = 3 (hand-picked patterns + seeded sample), translations from a fixed set, seeded random dyadic matrices; magnitude ladder 2^e, e in {-997,-100,-54,-40,-34,-33,-27,-24,-20,-17,-10,10,17,27,40,100} (1e-300 .. 1e30): every rung in every structural role (diagonal, permuted, triangular, coupled, block; one axis / all axes / one row / one column / one coupling at the rung) for n = 1..3 with offsets of 0, 3, 2^20, 2^31+1, 5*2^36 steps and an unrelated rung, plus seeded random matrices mixing 1-3 rungs (mantissas 1, 3, 5, 1+2^-30, 1+2^-52, 2-2^-52); shapes <= 3-d with sides <= 4 (5 thorough); views from the stated domain; non-trivial = affine coordinates (xform) / affine and >= 2-d (world, link)",
 )
